@@ -92,6 +92,22 @@ func (OSFS) OpenFile(name string, flag int, perm fs.FileMode) (avfs.File, error)
 	return f, nil
 }
 
+func (OSFS) Open(name string) (avfs.File, error) {
+	f, err := os.Open(name)
+	if err != nil {
+		return (*os.File)(nil), err
+	}
+	return f, nil
+}
+
+func (OSFS) Create(name string) (avfs.File, error) {
+	f, err := os.Create(name)
+	if err != nil {
+		return (*os.File)(nil), err
+	}
+	return f, nil
+}
+
 func (OSFS) CreateTemp(dir, pattern string) (avfs.File, error) {
 	f, err := os.CreateTemp(dir, pattern)
 	if err != nil {
